@@ -452,5 +452,6 @@ func writeFacts(outDir string) {
 	facts.WriteString(coqByteList("TUNNEL_CLOSE_CALLS", tc))
 	facts.WriteString(coqByteList("FORWARD_DEFERS", deferCalls(findFunc("cmd/rdpgw/protocol/common.go", "forward"))))
 	facts.WriteString(writeSites())
+	facts.WriteString(writeDecisions())
 	writeIfChanged(filepath.Join(outDir, "Facts.v"), facts.String())
 }
